@@ -8,7 +8,7 @@ open CelmaVerif CelmaVerif.Keys
 
 /-- `ai` is a key element (`-c` or `--word`) and `k` is the key it is looked up with -/
 def ElemKey (ai : It) (k : Key) : Prop :=
-  (ai.cur.ty = .singleCharArg ∧ k = Key.ofChar ai.cur.ch) ∨ (ai.cur.ty = .stringArg ∧ Key.parse ai.cur.str = .ok k)
+  (ai.cur.ty = .singleCharArg ∧ k = Key.ofChar ai.cur.ch) ∨ (ai.cur.ty = .stringArg ∧ wordKey ai.cur.str = .ok k)
 
 theorem ElemKey.isKey {ai : It} {k : Key} (hk : ElemKey ai k) : (ai.cur.ty != .value) = true := by
   rcases hk with ⟨h, _⟩ | ⟨h, _⟩ <;> rw [h] <;> rfl
